@@ -36,7 +36,7 @@ class C10(Property):
     configs = CFGS
     bytes_per_case = 768
     technique = 'differential property testing between four feature builds of the same code (default, full-lexer, all-nodes-with-ranges, num-bigint) on generated texts'
-    level_text = ('~20k (quick) / 500k (thorough) valid programs (comment / blank-line heavy layouts, soft keywords at line starts, integers beyond 2^64) and '
+    level_text = ('~50k (quick) / 500k (thorough) valid programs (comment / blank-line heavy layouts, soft keywords at line starts, integers beyond 2^64) and '
                   'invalid texts, each parsed and lexed by four adapter binaries built from the same tree: acceptance, tree, mandatory ranges, error kind and '
                   'offset, integer values, identity fold and located ranges must agree; full-lexer tokens minus comments/non-logical newlines == default tokens')
     level_note = 'relations between builds of the code itself; optional-range kinds are derived from Python.asdl (types without attributes)'
@@ -44,7 +44,7 @@ class C10(Property):
             'line start, an int >= 2^64, or invalid text; distinct by case hash')
 
     def budget(self, tier):
-        return 20000 if tier == 'quick' else 500000
+        return 50000 if tier == 'quick' else 500000
 
     def explicit_cases(self, ctx):
         for t in ['# c\nmatch x:\n    # c\n    case 1: pass\n', 'x = 1 # c\n\n\ntype X = int\n', '#\n#\nmatch = 1\n', 'if x:\n    # c\n\n    match y:\n        case _: pass\n',
